@@ -996,9 +996,9 @@ fn number_scalars() -> Vec<Vec<u8>> {
     let mut v: Vec<Vec<u8>> = vec![];
     let centers: [u128; 9] = [0, 1, (1 << 53) - 1, 1 << 53, (1 << 63) - 1, 1 << 63, (1u128 << 64) - 1, 1u128 << 64, 1u128 << 32];
     for c in centers {
-        for d in -1i64..=1 {
+        for d in -2i64..=2 {
             let x = if d < 0 { c.saturating_sub((-d) as u128) } else { c + d as u128 };
-            for prefix in ["", "-", "+", "0", "-+"] {
+            for prefix in ["", "-", "+", "0", "-0", "-+", "+-", "--"] {
                 v.push(format!("{}{}", prefix, x).into_bytes());
             }
             let txt = x.to_string();
@@ -1050,9 +1050,7 @@ pub fn gen(g: &mut Gen) {
         for (di, d) in docs.iter().enumerate() {
             for o in &narrow_opts {
                 for enc in ["w", "u"] {
-                    if enc == "u" && di >= 2 {
-                        continue;
-                    }
+                    let _ = di;
                     if !emit(g, d.as_bytes(), *o, enc, "obj") {
                         g.count("scalar-doc:rejected");
                     }
